@@ -60,6 +60,14 @@ def live_phase(ctx):
     rc, rep = cr.stop()
     if rep.strip():
         ctx.violation("sanitizer report from the daemon during the C07 live phase", {"report": rep[:3000]}, found_input=False)
+    # the record must last as long as THIS daemon's time check can still pass: credentials whose TTL exceeds the decoder's
+    # --max-ttl, with the periodic purge (timer thread fast-forwarded) firing inside and after the capped life
+    pf = []
+    pm = c05_live.purge_phase(ctx, orc, pf, dist)
+    for f in pf:
+        fails.append(dict(f, why="replay memory shorter than the time the credential can still pass the time check: " + f["why"],
+                          kind="purge-history"))
+    mism += pm
     ctx.cov.setdefault("input_distribution", {}).update({"live-" + k: v for k, v in dist.items()})
     seen = set()
     for f in fails:
